@@ -283,6 +283,43 @@ func main() {
 			}
 			shape("cfg.funcDecl", found)
 		}
+		// ---- iota: reset after the last spec of a const declaration, in cfg and in gta
+		iotaReset := false
+		{
+			const want = "ifchildPos(n)==len(n.anc.child)-1{sc.iota=0}else{sc.iota++}"
+			scan := func(fd *ast.FuncDecl) (ifShape, writes string) {
+				ifShape = missing
+				var ws []string
+				if fd == nil {
+					return ifShape, missing
+				}
+				ast.Inspect(fd, func(n ast.Node) bool {
+					switch x := n.(type) {
+					case *ast.IfStmt:
+						if strings.Contains(norm(x.Body), "sc.iota") && strings.HasPrefix(norm(x.Cond), "childPos(n)") {
+							ifShape = norm(x)
+						}
+					case *ast.AssignStmt:
+						if len(x.Lhs) == 1 && norm(x.Lhs[0]) == "sc.iota" {
+							ws = append(ws, norm(x))
+						}
+					case *ast.IncDecStmt:
+						if norm(x.X) == "sc.iota" {
+							ws = append(ws, norm(x))
+						}
+					}
+					return true
+				})
+				return ifShape, strings.Join(ws, ";")
+			}
+			c1, w1 := scan(common.FindFunc(fc, "Interpreter", "cfg"))
+			c2, w2 := scan(common.FindFunc(fg, "Interpreter", "gta"))
+			iotaReset = c1 == want && c2 == want && w1 == "sc.iota=0;sc.iota++" && w2 == "sc.iota=0;sc.iota++"
+			shape("cfg.constIota", c1)
+			shape("cfg.iotaWrites", w1)
+			shape("gta.constIota", c2)
+			shape("gta.iotaWrites", w2)
+		}
 		// ---- scope.add
 		allocEnd := false
 		{
@@ -404,7 +441,8 @@ def facts : Facts :=
     allocAtEnd := %s,
     declTokens := %s,
     wrapDefault := %s,
-    mainAppended := %s }
+    mainAppended := %s,
+    iotaResetAtEnd := %s }
 /-- interp.go Eval, EvalPath, eval; program.go Compile, compileSrc, CompileAST, Execute: calls in source order -/
 def pipeline : CallGraph :=
   [%s]
@@ -415,7 +453,7 @@ def shapes : List (String × String) :=
 def sourceHashes : List (String × String) :=
   %s
 end YaegiVerif.Generated.C11
-`, leanBool(copies), leanBool(overwrites), leanBool(allocEnd), common.LeanStrList(declTokens), leanBool(wrapDefault), leanBool(mainAppended),
+`, leanBool(copies), leanBool(overwrites), leanBool(allocEnd), common.LeanStrList(declTokens), leanBool(wrapDefault), leanBool(mainAppended), leanBool(iotaReset),
 			strings.Join(pipe, ",\n   "), strings.Join(shapeLines, ",\n   "), strings.Join(hashes, " ++\n  ")), nil
 	})
 }
